@@ -20,8 +20,11 @@ import (
 //	                             createCheckpoint before it sends on the output stream, and createCheckpoint reads the
 //	                             reader's Checkpoint() before it calls OnSourceRunnerCheckpointComplete.
 //
-// The recognisers look at which calls happen and in which source order inside the named functions; they do not depend
-// on local variable names, comments or statements in between.
+// The recognisers work on the linearised list of synchronous calls of the named function in source order, in which a
+// call of a method of the same type on the receiver (or of a plain function of the same file) is followed by the list
+// of that helper, three levels deep (c01Linear). They therefore do not depend on local names, comments, statements in
+// between, early-return / inverted-if forms, or on parts of the function being extracted into helpers; bodies of go
+// statements and function literals are not part of the list.
 func init() { extraFactFns = append(extraFactFns, c01Facts) }
 
 // callPositions returns the positions of the calls in n whose selector (or function) name is `name`, in source order;
@@ -54,6 +57,96 @@ func c01CallPositions(n ast.Node, name string, sync bool) []token.Pos {
 	return out
 }
 
+// c01Linear lists, in source order, the names of the calls made synchronously by the statements `nodes` of a method
+// whose receiver variable is `recv` (bodies of go statements and function literals are skipped). A call of a method of
+// the same type on the receiver, or of a plain function of the same file, is followed by the linearised body of that
+// helper (up to `depth` levels), so that extracting part of a function into a helper does not change the list.
+// Sends are listed as "send:<field>" for `recv.<field> <- …`, lock operations on `recv.mu` as "mu.Lock" etc.
+func c01Linear(f *ast.File, typ, recv string, nodes []ast.Node, depth int, seen map[string]bool) []string {
+	var out []string
+	var visit func(n ast.Node)
+	visit = func(n ast.Node) {
+		ast.Inspect(n, func(x ast.Node) bool {
+			switch c := x.(type) {
+			case *ast.FuncLit, *ast.GoStmt:
+				return false
+			case *ast.SendStmt:
+				if sel, ok := c.Chan.(*ast.SelectorExpr); ok {
+					if id, ok := sel.X.(*ast.Ident); ok && id.Name == recv {
+						out = append(out, "send:"+sel.Sel.Name)
+					}
+				}
+			case *ast.CallExpr:
+				name, onRecv, plain := "", false, false
+				switch fn := c.Fun.(type) {
+				case *ast.SelectorExpr:
+					name = fn.Sel.Name
+					if id, ok := fn.X.(*ast.Ident); ok && id.Name == recv {
+						onRecv = true
+					}
+					if selName(fn.X) == recv+".mu" {
+						name = "mu." + name
+					}
+				case *ast.Ident:
+					name, plain = fn.Name, true
+				}
+				if name == "" {
+					return true
+				}
+				out = append(out, name)
+				if depth > 0 && !seen[name] {
+					var callee *ast.FuncDecl
+					if onRecv {
+						callee = findFunc(f, typ, name)
+					} else if plain {
+						callee = findFunc(f, "", name)
+					}
+					if callee != nil && callee.Body != nil {
+						// arguments first (they are evaluated before the body runs)
+						for _, a := range c.Args {
+							visit(a)
+						}
+						seen2 := map[string]bool{name: true}
+						for k := range seen {
+							seen2[k] = true
+						}
+						r := ""
+						if callee.Recv != nil {
+							r = recvName(callee)
+						}
+						out = append(out, c01Linear(f, typ, r, []ast.Node{callee.Body}, depth-1, seen2)...)
+						return false
+					}
+				}
+			}
+			return true
+		})
+	}
+	for _, n := range nodes {
+		visit(n)
+	}
+	return out
+}
+
+func c01Index(l []string, name string) int {
+	for i, x := range l {
+		if x == name {
+			return i
+		}
+	}
+	return -1
+}
+
+func c01Count(l []string, name string) int {
+	k := 0
+	for _, x := range l {
+		if x == name {
+			k++
+		}
+	}
+	return k
+}
+
 func c01B(b bool) uint64 {
 	if b {
 		return 1
@@ -62,66 +155,45 @@ func c01B(b bool) uint64 {
 }
 
 func c01Facts(fc *facts) {
-	// ---- Job.start
+	// ---- Job.start: one CurrentCheckpoint() in start and everything it calls synchronously, before Deploy
 	jf := parseFile("jobs/job.go")
 	start := findFunc(jf, "Job", "start")
-	if start == nil {
+	if start == nil || start.Body == nil {
 		problemFor([]string{"c01StartReadsCheckpointOnce"}, "jobs.Job.start not found")
 	} else {
-		recv := recvName(start)
-		// CurrentCheckpoint calls in start and in the Job methods it calls synchronously (one level is what exists;
-		// deeper helpers are followed as well)
-		seen := map[string]bool{"start": true}
-		total := len(c01CallPositions(start.Body, "CurrentCheckpoint", true))
-		var follow func(fn *ast.FuncDecl, r string)
-		follow = func(fn *ast.FuncDecl, r string) {
-			ast.Inspect(fn.Body, func(x ast.Node) bool {
-				switch c := x.(type) {
-				case *ast.FuncLit, *ast.GoStmt:
-					return false
-				case *ast.CallExpr:
-					if sel, ok := c.Fun.(*ast.SelectorExpr); ok {
-						if id, ok := sel.X.(*ast.Ident); ok && id.Name == r && !seen[sel.Sel.Name] {
-							if callee := findFunc(jf, "Job", sel.Sel.Name); callee != nil && callee.Body != nil {
-								seen[sel.Sel.Name] = true
-								total += len(c01CallPositions(callee.Body, "CurrentCheckpoint", true))
-								follow(callee, recvName(callee))
-							}
-						}
-					}
-				}
-				return true
-			})
-		}
-		follow(start, recv)
-		own := c01CallPositions(start.Body, "CurrentCheckpoint", true)
-		deploy := c01CallPositions(start.Body, "Deploy", true)
-		fc.set("c01StartReadsCheckpointOnce", c01B(total == 1 && len(own) == 1 && len(deploy) >= 1 && own[0] < deploy[0]), true, "")
+		l := c01Linear(jf, "Job", recvName(start), []ast.Node{start.Body}, 3, map[string]bool{"start": true})
+		cur, dep := c01Index(l, "CurrentCheckpoint"), c01Index(l, "Deploy")
+		fc.set("c01StartReadsCheckpointOnce", c01B(c01Count(l, "CurrentCheckpoint") == 1 && dep >= 0 && cur < dep), true, "")
 	}
 
-	// ---- Operator.handleCheckpointBarrier
+	// ---- Operator.handleCheckpointBarrier: lock, then flush < DKV checkpoint < acknowledgement (helpers followed)
 	of := parseFile("workers/operator/operator.go")
 	hcb := findFunc(of, "Operator", "handleCheckpointBarrier")
-	if hcb == nil || hcb.Body == nil || len(hcb.Body.List) < 2 {
+	if hcb == nil || hcb.Body == nil {
 		problemFor([]string{"c01OperatorCheckpointOrder"}, "operator.Operator.handleCheckpointBarrier not found")
 	} else {
-		recv := recvName(hcb)
-		first, ok1 := hcb.Body.List[0].(*ast.ExprStmt)
-		second, ok2 := hcb.Body.List[1].(*ast.DeferStmt)
-		locked := ok1 && ok2 && selCall(first.X) == recv+".mu.Lock" && selCall(second.Call) == recv+".mu.Unlock"
-		flush := c01CallPositions(hcb.Body, "processEventBatch", true)
-		ckpt := c01CallPositions(hcb.Body, "Checkpoint", true)
-		ack := c01CallPositions(hcb.Body, "OperatorCheckpointComplete", true)
-		ordered := len(flush) >= 1 && len(ckpt) >= 1 && len(ack) >= 1 && flush[0] < ckpt[0] && ckpt[len(ckpt)-1] < ack[0]
-		fc.set("c01OperatorCheckpointOrder", c01B(locked && ordered), true, "")
+		l := c01Linear(of, "Operator", recvName(hcb), []ast.Node{hcb.Body}, 3, map[string]bool{"handleCheckpointBarrier": true})
+		lock, flush := c01Index(l, "mu.Lock"), c01Index(l, "processEventBatch")
+		ckpt, ack := c01Index(l, "Checkpoint"), c01Index(l, "OperatorCheckpointComplete")
+		// the write lock is taken first and released only by a deferred Unlock of the handler itself
+		deferred := false
+		for _, st := range hcb.Body.List {
+			if d, ok := st.(*ast.DeferStmt); ok && selCall(d.Call) == recvName(hcb)+".mu.Unlock" {
+				deferred = true
+			}
+		}
+		ok := lock == 0 && deferred && c01Count(l, "mu.Lock") == 1 && c01Count(l, "mu.Unlock") == 1 &&
+			c01Count(l, "mu.RLock") == 0 && c01Count(l, "mu.RUnlock") == 0 &&
+			flush > lock && ckpt > flush && ack > ckpt && c01Count(l, "OperatorCheckpointComplete") == 1
+		// no DKV checkpoint before the flush
+		fc.set("c01OperatorCheckpointOrder", c01B(ok), true, "")
 	}
 
-	// ---- SourceRunner.processEvents / createCheckpoint
+	// ---- SourceRunner.processEvents: barrier case = reader Checkpoint() < acknowledgement < send on the output stream
 	sf := parseFile("workers/sourcerunner/source_runner.go")
 	pe := findFunc(sf, "SourceRunner", "processEvents")
-	cc := findFunc(sf, "SourceRunner", "createCheckpoint")
-	if pe == nil || cc == nil || pe.Body == nil || cc.Body == nil {
-		problemFor([]string{"c01RunnerCutBeforeBarrier"}, "sourcerunner.SourceRunner.processEvents / createCheckpoint not found")
+	if pe == nil || pe.Body == nil {
+		problemFor([]string{"c01RunnerCutBeforeBarrier"}, "sourcerunner.SourceRunner.processEvents not found")
 		return
 	}
 	recv := recvName(pe)
@@ -131,7 +203,6 @@ func c01Facts(fc *facts) {
 		if !ok || cl.Comm == nil {
 			return true
 		}
-		// the case receiving from the barrier channel
 		recvFrom := ""
 		ast.Inspect(cl.Comm, func(y ast.Node) bool {
 			if u, ok := y.(*ast.UnaryExpr); ok && u.Op == token.ARROW {
@@ -142,29 +213,21 @@ func c01Facts(fc *facts) {
 		if recvFrom != recv+".checkpointBarrier" {
 			return true
 		}
-		var cut, send token.Pos
-		for _, st := range cl.Body {
-			if p := c01CallPositions(st, "createCheckpoint", true); len(p) > 0 && cut == 0 {
-				cut = p[0]
-			}
-			ast.Inspect(st, func(y ast.Node) bool {
-				if s, ok := y.(*ast.SendStmt); ok && selName(s.Chan) == recv+".outputStream" && send == 0 {
-					send = s.Pos()
-				}
-				return true
-			})
+		nodes := make([]ast.Node, len(cl.Body))
+		for i, st := range cl.Body {
+			nodes[i] = st
 		}
-		caseOK = cut != 0 && send != 0 && cut < send
+		l := c01Linear(sf, "SourceRunner", recv, nodes, 3, map[string]bool{"processEvents": true})
+		snap, ack, send := c01Index(l, "Checkpoint"), c01Index(l, "OnSourceRunnerCheckpointComplete"), c01Index(l, "send:outputStream")
+		caseOK = snap >= 0 && ack > snap && send > ack
 		return true
 	})
-	snap := c01CallPositions(cc.Body, "Checkpoint", true)
-	ack := c01CallPositions(cc.Body, "OnSourceRunnerCheckpointComplete", true)
-	// nobody else takes the runner's cut: createCheckpoint is called only from the read loop
-	others := 0
+	// nobody else takes the runner's cut: one acknowledgement call site in the file
+	acks := 0
 	for _, d := range sf.Decls {
-		if fd, ok := d.(*ast.FuncDecl); ok && fd.Body != nil && fd != pe {
-			others += len(c01CallPositions(fd.Body, "createCheckpoint", false))
+		if fd, ok := d.(*ast.FuncDecl); ok && fd.Body != nil {
+			acks += len(c01CallPositions(fd.Body, "OnSourceRunnerCheckpointComplete", false))
 		}
 	}
-	fc.set("c01RunnerCutBeforeBarrier", c01B(caseOK && len(snap) >= 1 && len(ack) >= 1 && snap[0] < ack[0] && others == 0), true, "")
+	fc.set("c01RunnerCutBeforeBarrier", c01B(caseOK && acks == 1), true, "")
 }
